@@ -1,7 +1,7 @@
 (* C03 -- Cubic spline honours the selected boundary conditions (unique spline). *)
 From Coq Require Import List Bool Arith ZArith QArith Qcanon.
 From NI Require Import Num Base Lookup Linear Interp Spline Tri TriProofs SplineAlgebra
-  LookupProofs LinearProofs SplineProofs.
+  LookupProofs LinearProofs SplineProofs PeriodicSolve PeriodicLane.
 Import ListNotations.
 Local Open Scope nat_scope.
 
@@ -90,8 +90,7 @@ Theorem C03_nak3_parabola :
 Proof. exact sat_bc_parabola. Qed.
 Print Assumptions C03_nak3_parabola.
 
-(* Periodic: the wrap-around row of the cyclic system is C2 across the period (algebra);
-   the solver part for the condensed cyclic system is validated, not yet proved. *)
+(* Periodic: the wrap-around row of the cyclic system is C2 across the period (algebra) *)
 Theorem C03_periodic_wrap_row :
   forall (yl y0 yr kl k0 kr hl hr : Qc), hl <> 0%Qc -> hr <> 0%Qc ->
     (piece_d2 (ca kl hl (y0 - yl)) (cb k0 hl (y0 - yl)) hl hl =
@@ -100,6 +99,97 @@ Theorem C03_periodic_wrap_row :
       ((y0 - yl) / hl * hr + (yr - y0) / hr * hl) * c3 NumQc)%Qc).
 Proof. exact periodic_wrap_iff. Qed.
 Print Assumptions C03_periodic_wrap_row.
+
+
+(* Periodic (n >= 4): the slopes the model computes satisfy the whole cyclic system ... *)
+Theorem C03_periodic_slopes_system :
+  forall (xs : list Qc) (data : list (list Qc)) (L j : nat), j < L ->
+    (forall i, i < length data -> length (nth i data []) = L) ->
+    StrictIncQc xs -> length xs = length data -> 4 <= length data ->
+    cyclic_sys (length data) (hq xs) (yq data j)
+               (fun i => nth j (nth i (periodic_k NumQc xs data (length data)) []) 0%Qc).
+Proof. intros xs data L j Hj Hw HS Hl Hn. exact (periodic_slopes_system xs data L j Hj Hw HS Hl Hn). Qed.
+Print Assumptions C03_periodic_slopes_system.
+
+(* ... so S' and S'' agree at the two ends (equal end data is what build() checks, C10) ... *)
+Theorem C03_periodic_equal_first_derivative :
+  forall (xs : list Qc) (data : list (list Qc)) (L j : nat), j < L ->
+    (forall i, i < length data -> length (nth i data []) = L) ->
+    StrictIncQc xs -> length xs = length data -> 4 <= length data ->
+    let n := length data in let KK := lane_vec 0%Qc j (periodic_k NumQc xs data n) in
+    piece_d1 (kk KK (n - 2)) (aq xs data j KK (n - 2)) (bq xs data j KK (n - 2)) (hq xs (n - 2)) (hq xs (n - 2))
+    = piece_d1 (kk KK 0) (aq xs data j KK 0) (bq xs data j KK 0) (hq xs 0) 0%Qc.
+Proof. exact periodic_wrap_d1. Qed.
+Print Assumptions C03_periodic_equal_first_derivative.
+
+Theorem C03_periodic_equal_second_derivative :
+  forall (xs : list Qc) (data : list (list Qc)) (L j : nat), j < L ->
+    (forall i, i < length data -> length (nth i data []) = L) ->
+    StrictIncQc xs -> length xs = length data -> 4 <= length data ->
+    let n := length data in let KK := lane_vec 0%Qc j (periodic_k NumQc xs data n) in
+    yq data j (n - 1) = yq data j 0 ->
+    piece_d2 (aq xs data j KK (n - 2)) (bq xs data j KK (n - 2)) (hq xs (n - 2)) (hq xs (n - 2))
+    = piece_d2 (aq xs data j KK 0) (bq xs data j KK 0) (hq xs 0) 0%Qc.
+Proof. exact periodic_wrap_d2. Qed.
+Print Assumptions C03_periodic_equal_second_derivative.
+
+(* ... and these conditions determine the slopes: the periodic spline is unique *)
+Theorem C03_periodic_unique :
+  forall (xs : list Qc) (data : list (list Qc)) (L j : nat), j < L ->
+    (forall i, i < length data -> length (nth i data []) = L) ->
+    StrictIncQc xs -> length xs = length data -> 4 <= length data ->
+    let n := length data in let KK := lane_vec 0%Qc j (periodic_k NumQc xs data n) in
+    forall k' : list Qc,
+      yq data j (n - 1) = yq data j 0 ->
+      (forall i, 1 <= i -> i + 2 <= n ->
+         piece_d2 (aq xs data j k' (i - 1)) (bq xs data j k' (i - 1)) (hq xs (i - 1)) (hq xs (i - 1))
+         = piece_d2 (aq xs data j k' i) (bq xs data j k' i) (hq xs i) 0%Qc) ->
+      piece_d1 (kk k' (n - 2)) (aq xs data j k' (n - 2)) (bq xs data j k' (n - 2)) (hq xs (n - 2)) (hq xs (n - 2))
+        = piece_d1 (kk k' 0) (aq xs data j k' 0) (bq xs data j k' 0) (hq xs 0) 0%Qc ->
+      piece_d2 (aq xs data j k' (n - 2)) (bq xs data j k' (n - 2)) (hq xs (n - 2)) (hq xs (n - 2))
+        = piece_d2 (aq xs data j k' 0) (bq xs data j k' 0) (hq xs 0) 0%Qc ->
+      forall i, i < n -> kk k' i = kk KK i.
+Proof. exact periodic_slopes_unique. Qed.
+Print Assumptions C03_periodic_unique.
+
+(* what the solver returns for Periodic is this slope array (and the end rows are equal) *)
+Theorem C03_solve_periodic :
+  forall (xs : list Qc) (data : list (list Qc)) (L j : nat), j < L ->
+    (forall i, i < length data -> length (nth i data []) = L) ->
+    length xs = length data -> 4 <= length data ->
+    forall K, solve_for_k NumQc xs data IPeriodic = Ok K ->
+      K = periodic_k NumQc xs data (length data) /\ yq data j (length data - 1) = yq data j 0.
+Proof. exact solve_periodic. Qed.
+Print Assumptions C03_solve_periodic.
+
+(* three knots: one common slope; S' and S'' agree at the ends *)
+Theorem C03_periodic3 :
+  forall (xs : list Qc) (data : list (list Qc)) (L j : nat), j < L ->
+    (forall i, i < length data -> length (nth i data []) = L) ->
+    StrictIncQc xs -> length xs = length data -> length data = 3 ->
+    let K3 := lane_vec 0%Qc j (periodic3_k NumQc xs data) in
+    piece_d1 (kk K3 1) (aq xs data j K3 1) (bq xs data j K3 1) (hq xs 1) (hq xs 1)
+      = piece_d1 (kk K3 0) (aq xs data j K3 0) (bq xs data j K3 0) (hq xs 0) 0%Qc /\
+    (yq data j 2 = yq data j 0 ->
+     piece_d2 (aq xs data j K3 1) (bq xs data j K3 1) (hq xs 1) (hq xs 1)
+       = piece_d2 (aq xs data j K3 0) (bq xs data j K3 0) (hq xs 0) 0%Qc).
+Proof.
+  intros xs data L j Hj Hw HS Hl Hn. split.
+  - exact (periodic3_wrap_d1 xs data L j Hj Hw HS Hl Hn).
+  - exact (periodic3_wrap_d2 xs data L j Hj Hw HS Hl Hn).
+Qed.
+Print Assumptions C03_periodic3.
+
+(* per-lane (Individual) boundaries: every end condition above holds for the lane's own pair,
+   because the lane's slopes are the unique solution of the lane's own system
+   (C02_spline_individual_correct) *)
+
+Example C03_ex_periodic :
+  match solve_for_k NumQc [qc 0 1; qc 1 1; qc 3 1; qc 4 1; qc 6 1] [[qc 0 1]; [qc 1 1]; [qc 0 1]; [qc 2 1]; [qc 0 1]] IPeriodic with
+  | Ok K => length K
+  | _ => 0
+  end = 5.
+Proof. vm_compute. reflexivity. Qed.
 
 Example C03_ex : (* a non-trivial system: the solver succeeds on a non-uniform axis *)
   match solve_for_k NumQc [qc 0 1; qc 1 1; qc 3 1; qc 4 1] [[qc 0 1]; [qc 1 1]; [qc 0 1]; [qc 2 1]]
